@@ -101,11 +101,13 @@ Begin ==
            /\ phase' = IF halted THEN "idle" ELSE "begun"
    /\ UNCHANGED disk
 
+\* a candidate got a new key since the last commit
+KeyChangedInBlock == \E p \in DOMAIN st.cands : \E q \in DOMAIN disk.cands : disk.cands[q].id = st.cands[p].id /\ q # p
 \* what the node tells the consensus engine after an update of the validator set
 UpdatesOf(s0, s1) == <<>>      \* powers are 64-bit products in the node: left to the trace checks (C17_Power)
 End ==
    /\ phase = "begun"
-   /\ st' = EndS(st, st.h, hist.present, WorldCfg, 1, Cap, FALSE)
+   /\ st' = EndS(st, st.h, hist.present, WorldCfg, 1, Cap, KeyChangedInBlock)
    /\ ev' = Ev("EndBlock", st.h) @@ [end |-> [updates |-> UpdatesOf(st, st')]]
    /\ phase' = "ended"
    /\ scn' = Append(scn, [op |-> "end"])
@@ -176,7 +178,10 @@ CandTxs == {MkTx("DeclareCandidacy", "a1", [address |-> "a1", pub |-> "n1", comm
             MkTx("EditCandidateCommission", "o2", [pub |-> "v2", comm |-> 31]),
             MkTx("EditCandidateCommission", "a6", [pub |-> "v2", comm |-> 25]),
             MkTx("EditCandidateCommission", "a5", [pub |-> "c5", comm |-> 0]),
-            MkTx("SetCandidateOn", "a1", [pub |-> "n1"]), MkTx("SetCandidateOff", "a4", [pub |-> "v2"])}
+            MkTx("SetCandidateOn", "a1", [pub |-> "n1"]), MkTx("SetCandidateOff", "a4", [pub |-> "v2"]),
+            MkTx("EditCandidatePublicKey", "o2", [pub |-> "v2", newPub |-> "k2"]), MkTx("EditCandidatePublicKey", "o2", [pub |-> "v2", newPub |-> "v1"]),
+            MkTx("EditCandidatePublicKey", "a1", [pub |-> "v2", newPub |-> "kx"]), MkTx("EditCandidatePublicKey", "o1", [pub |-> "v1", newPub |-> "v2"]),
+            MkTx("EditCandidatePublicKey", "o2", [pub |-> "k2", newPub |-> "k3"])}
 TxMenu == (IF "Halt" \in Menu THEN HaltTxs ELSE {}) \cup (IF "Candidates" \in Menu THEN CandTxs ELSE {}) \cup (IF "Update" \in Menu THEN UpdateTxs ELSE {})
      \cup (IF "Delegate" \in Menu THEN DelegateTxs ELSE {})
      \cup (IF "Unbond" \in Menu THEN UnbondTxs ELSE {})
@@ -276,6 +281,12 @@ ReachStep ==
    /\ Mark("CommissionTooFar", Delivered /\ Tx.type = "EditCandidateCommission" /\ Code = WrongCommission)
    /\ Mark("CommissionTooSoon", Rej(PeriodLimitReached))
    /\ Mark("CommissionByControl", Delivered /\ Tx.type = "EditCandidateCommission" /\ Code = IsNotOwnerOfCandidate)
+   /\ Mark("KeyChanged", OkTx("EditCandidatePublicKey"))
+   /\ Mark("KeyChangedTwice", OkTx("EditCandidatePublicKey") /\ Arg("pub") = "k2")
+   /\ Mark("KeyTaken", Delivered /\ Tx.type = "EditCandidatePublicKey" /\ Code = CandidateExists)
+   /\ Mark("KeyBlocked", Rej(PublicKeyInBlockList))
+   /\ Mark("KeyChangeByStranger", Delivered /\ Tx.type = "EditCandidatePublicKey" /\ Code = IsNotOwnerOfCandidate)
+   /\ Mark("ValidatorFollowsKey", IsKind("EndBlock") /\ "k2" \in ValNames(st) /\ "k2" \in ValNames(st'))
    /\ Mark("NewCandidateIsValidator", IsKind("EndBlock") /\ "n1" \in ValNames(st'))
    /\ Mark("VoteOk", OkTx("SetHaltBlock") \/ OkTx("VoteUpdate"))
    /\ Mark("VoteExpired", Rej(VoteExpired))
